@@ -201,10 +201,23 @@ def rand_dt(rng: random.Random) -> dict:
     if rng.random() < 0.12:     # all twelve octets below 0x80 (looks like text to a careless dispatch)
         return {"y": rng.choice([2048, 2100, 2175, 2050]), "mo": rng.randint(1, 12), "d": rng.randint(1, 28), "dow": rng.randint(1, 7), "h": rng.randint(0, 23),
                 "mi": rng.randint(0, 59), "s": rng.randint(0, 59), "hs": rng.randint(0, 99), "dev": rng.choice([0, 60, 120]), "st": rng.choice([0, 1, 127])}
+    from .core import dst_wall_times
+    gaps = dst_wall_times()
+    if gaps and rng.random() < 0.25:        # a civil time the HOST's zone skips or repeats, deviation equal / opposite to the host's offset or arbitrary
+        y, mo, d, h, mi, s, off = rng.choice(gaps)
+        if abs(off) > 720:          # the deviation field only reaches +-720 minutes
+            off = 0
+        dev = rng.choice([(-off) % 65536, off % 65536, 0x8000, 0, 65536 - 60, rng.randint(0, 720)])
+        return {"y": y, "mo": mo, "d": d, "dow": 0xFF, "h": h, "mi": mi, "s": s, "hs": rng.choice([0xFF, 0, rng.randint(0, 99)]), "dev": dev,
+                "st": rng.choice([0, 0x80, 0xFF, rng.randint(0, 255)])}
     y = rng.choice([1, 1999, 2000, 2024, 9999, rng.randint(1, 9999)])
     mo = rng.randint(1, 12)
     dim = [31, 29 if (y % 4 == 0 and y % 100 != 0) or y % 400 == 0 else 28, 31, 30, 31, 30, 31, 31, 30, 31, 30, 31][mo - 1]
-    dev = rng.choice([0x8000, 0, rng.randint(0, 720), 65536 - rng.randint(1, 720), 720, 65536 - 720, 719, 65536 - 719, 60, 65536 - 60])
+    import time as _time
+    hoff = _time.localtime().tm_gmtoff // 60
+    hoff = hoff if abs(hoff) <= 720 else 0
+    dev = rng.choice([0x8000, 0, rng.randint(0, 720), 65536 - rng.randint(1, 720), 720, 65536 - 720, 719, 65536 - 719, 60, 65536 - 60,
+                      hoff % 65536, (-hoff) % 65536])
     return {"y": y, "mo": mo, "d": rng.randint(1, dim), "dow": rng.choice([0xFF, rng.randint(0, 255)]), "h": rng.randint(0, 23), "mi": rng.randint(0, 59),
             "s": rng.randint(0, 59), "hs": rng.choice([0xFF, rng.randint(0, 99)]), "dev": dev, "st": rng.randint(0, 255)}
 
@@ -379,18 +392,47 @@ def run_c10(chk: Check) -> int:
     gen = gen_msgs(chk, "dt")
     if quick:
         gen = chk.rng.sample(gen, 1200)
-    traces = [record(g["msg"], bytes(g["bytes"]), "tlc:Gen_Cosem:dt") for g in gen]
+    from .core import set_logging as _sl
+    traces = []
+    for _k, g in enumerate(gen):
+        if _k % 50 == 0:
+            _sl(_k // 50)
+        traces.append(record(g["msg"], bytes(g["bytes"]), "tlc:Gen_Cosem:dt"))
     chk.cov["behaviours_replayed"] = len(gen)
     # random valid date-times in each of the six positions
     rng = chk.rng
     base = [g["msg"] for g in gen[:: 41]]
-    for _ in range(600 if quick else 20000):
+    from .core import set_logging
+    for _i in range(600 if quick else 20000):
+        if _i % 20 == 0:
+            set_logging(_i // 20)        # logging configuration and process time zone rotate
+        if _i % 7 == 3:
+            # line noise between the valid messages: a date-time outside the domain (deviation beyond +-720, month 13, hour 24 ...).
+            # Whatever the decoder makes of it is not judged here (C15 does that) - the valid messages after it are.
+            g = copy.deepcopy(rng.choice(base))
+            bad = rand_dt(rng)
+            alias = rng.choice([-1, 1]) * rng.randint(1, 720)     # the next valid message uses this deviation; the noise one that is 1441 / 65536-ish away
+            bad.update(rng.choice([{"dev": (alias - 1441) % 65536}, {"dev": (alias + 1441) % 65536}, {"dev": (alias - 1440) % 65536}, {"mo": 13}, {"h": 24}, {"d": 0},
+                                   {"hs": 100}]))
+            for e in g["elems"]:
+                if e["t"] == "dt":
+                    e["dt"] = dict(bad)
+            if g["apdu"]["kind"] != "null":
+                g["apdu"]["dt"] = dict(bad)
+            try:
+                decode(g["meter"], g["form"], encode(g))
+            except Exception:  # noqa: BLE001
+                pass
         m = copy.deepcopy(rng.choice(base))
         for e in m["elems"]:
             if e["t"] == "dt":
                 e["dt"] = rand_dt(rng)
+                if _i % 7 == 3:
+                    e["dt"]["dev"] = alias % 65536
         if m["apdu"]["kind"] != "null":
             m["apdu"]["dt"] = rand_dt(rng)
+            if _i % 7 == 3:
+                m["apdu"]["dt"]["dev"] = alias % 65536
         traces.append(record(m, encode(m), "gen:random", with_other=False))
     # the same instant written with different deviations, decoded one after the other (UTC vs local time, the hour that exists twice
     # at the end of daylight saving): every one must come back with ITS OWN civil fields and offset
